@@ -362,13 +362,13 @@ fn arb_case() -> impl Strategy<Value = Case> {
 fn main() {
     let cx = Check::from_args("C37", "exploration");
     cx.rule(
-        "bounded-exhaustive: every sequence of length <=4 (quick) / <=6 (thorough) over {exchange, commit latest / previous session (each with a real distinct password change), cancel latest / previous session, advance past the link TTL, +400 s} for one reset link; \
+        "bounded-exhaustive: every sequence of length <=4 (quick) / <=5 (thorough), each with a 1800 s and a 300 s link over {exchange, commit latest / previous session (each with a real distinct password change), cancel latest / previous session, advance past the link TTL, +400 s} for one reset link; \
          random sequences of 4..12 events over two links on one or two accounts with clock steps around the session and link TTLs. One server per worker, fresh accounts per case. \
          oracle = per-link reference model (valid / in progress(session) / consumed + expiry), one-directional: exchange ok => not consumed and not expired; commit ok => session of the latest exchange, still in progress; \
          the stored credential changes only in a successful commit and then verifies that session's password. non-trivial = >=1 exchange and (a successful commit or a commit attempt on a stale session); distinct by construction / hash",
     );
     cx.assume("a session exchanged before the link expired may still commit after the link's expiry (the property restricts exchange, not commit, after expiry)");
-    let maxlen = cx.tier.pick(4usize, 6usize);
+    let maxlen = cx.tier.pick(4usize, 5usize);
     for len in 1..=maxlen {
         cx.enumerate(&format!("one-link-len{len}"), 2 * 7u64.pow(len as u32), |i| enum_case(len, i), setup, |th, c| check(th, c));
     }
